@@ -52,7 +52,10 @@ import (
 //                                                (standardizeAddress, then Normalize, Key, VHost)
 //   c15.sites     blocks                      -> site;site;…   or   error:<class>
 //                    blocks = block;block;…   block = addr[,addr…]|bind|tls
-//                    tls    = none | off | email | self | manual | block, then optional +nr (no_redirect) +od (on-demand: ask)
+//                    tls    = dir[&dir…]   several `tls` directives in the block, in Casketfile order (setupTLS loops over them on one config)
+//                    dir    = none | off | email | self | manual (tls cert key) | load (tls { load dir }) | block (must_staple)
+//                             | proto (protocols) | ciph (ciphers) | snip (`import` of a snippet holding tls { protocols … }),
+//                             then optional +nr (no_redirect) +od (on-demand: ask)
 //                    site   = d=<scheme>|<host>|<port>|<listen>|<email>|<bits E manual self noredir ondemand>
 //                             |m=<Managed after mark>|e=<port>|<Enabled>  (after enableAutoHTTPS)|f=<scheme>|<host>|<port>|<Enabled>   (after MakeServers)
 //                             |r=<Location answered by the synthesised redirect handler to GET http://probe.test/p?q=1, or ->
@@ -375,6 +378,14 @@ func c15Setup() error {
 	if err := os.WriteFile(filepath.Join(d, "key.pem"), pem.EncodeToMemory(&pem.Block{Type: "EC PRIVATE KEY", Bytes: kb}), 0o600); err != nil {
 		return err
 	}
+	// `tls { load <dir> }`: a directory with one .pem bundle (certificate and key in one file)
+	if err := os.Mkdir(filepath.Join(d, "load"), 0o700); err != nil {
+		return err
+	}
+	bundle := append(pem.EncodeToMemory(&pem.Block{Type: "CERTIFICATE", Bytes: der}), pem.EncodeToMemory(&pem.Block{Type: "EC PRIVATE KEY", Bytes: kb})...)
+	if err := os.WriteFile(filepath.Join(d, "load", "bundle.pem"), bundle, 0o600); err != nil {
+		return err
+	}
 	c15Dir = d
 	return nil
 }
@@ -391,8 +402,25 @@ func c15Teardown() {
 	}
 }
 
-// c15TLSLines renders a tls variant token as Casketfile lines.
-func c15TLSLines(v string) (string, bool) {
+// c15TLSLines renders the tls field of a block as Casketfile lines: one token, or several joined with '&' — several
+// `tls` directives in the same site block, in that order (setupTLS runs once and loops over all of them).
+func c15TLSLines(vs string) (string, bool) {
+	var b strings.Builder
+	for _, v := range strings.Split(vs, "&") {
+		t, ok := c15TLSLine(v)
+		if !ok {
+			return "", false
+		}
+		b.WriteString(t)
+	}
+	return b.String(), true
+}
+
+// c15SnippetName is the snippet the variant `snip` imports; c15Casketfile defines it at the top of the file when used.
+const c15SnippetName = "tlsopts"
+
+// c15TLSLine renders one tls variant token as one tls directive.
+func c15TLSLine(v string) (string, bool) {
 	parts := strings.Split(v, "+")
 	nr, od := false, false
 	for _, p := range parts[1:] {
@@ -406,6 +434,7 @@ func c15TLSLines(v string) (string, bool) {
 		}
 	}
 	var head string
+	var sub []string
 	switch parts[0] {
 	case "none":
 		return "", true
@@ -417,14 +446,26 @@ func c15TLSLines(v string) (string, bool) {
 		head = "tls self_signed"
 	case "manual":
 		head = "tls " + filepath.Join(c15Dir, "cert.pem") + " " + filepath.Join(c15Dir, "key.pem")
+	case "load":
+		head = "tls"
+		sub = append(sub, "load "+filepath.Join(c15Dir, "load"))
 	case "block":
 		head = "tls"
+		sub = append(sub, "must_staple")
+	case "proto":
+		head = "tls"
+		sub = append(sub, "protocols tls1.2 tls1.3")
+	case "ciph":
+		head = "tls"
+		sub = append(sub, "ciphers ECDHE-ECDSA-AES256-GCM-SHA384 ECDHE-RSA-AES256-GCM-SHA384")
+	case "snip":
+		// options that come from a shared snippet: `import tlsopts` splices `tls { protocols … }` into the block
+		if nr || od {
+			return "", false
+		}
+		return "  import " + c15SnippetName + "\n", true
 	default:
 		return "", false
-	}
-	var sub []string
-	if parts[0] == "block" {
-		sub = append(sub, "must_staple")
 	}
 	if nr {
 		sub = append(sub, "no_redirect")
@@ -441,6 +482,14 @@ func c15TLSLines(v string) (string, bool) {
 func c15Casketfile(blocks string) (string, int, bool) {
 	var b strings.Builder
 	n := 0
+	if strings.Contains(blocks, "snip") {
+		for _, blk := range strings.Split(blocks, ";") {
+			if p := strings.Split(blk, "|"); len(p) == 3 && strings.Contains(p[2], "snip") {
+				b.WriteString("(" + c15SnippetName + ") {\n  tls {\n    protocols tls1.2 tls1.3\n  }\n}\n")
+				break
+			}
+		}
+	}
 	for _, blk := range strings.Split(blocks, ";") {
 		p := strings.Split(blk, "|")
 		if len(p) != 3 {
@@ -464,6 +513,39 @@ func c15Casketfile(blocks string) (string, int, bool) {
 		b.WriteString("}\n")
 	}
 	return b.String(), n, true
+}
+
+// c15MultiTLSTags: coverage tags for blocks with several tls directives.
+func c15MultiTLSTags(blocks string) []string {
+	var tags []string
+	seen := map[string]bool{}
+	add := func(t string) {
+		if !seen[t] {
+			seen[t] = true
+			tags = append(tags, t)
+		}
+	}
+	for _, blk := range strings.Split(blocks, ";") {
+		p := strings.Split(blk, "|")
+		if len(p) != 3 || !strings.Contains(p[2], "&") {
+			continue
+		}
+		add("several-tls-directives")
+		vs := strings.Split(p[2], "&")
+		for i, v := range vs {
+			base := strings.Split(v, "+")[0]
+			if (base == "manual" || base == "load") && i+1 < len(vs) {
+				add("own-certificate-then-more-tls")
+			}
+			if base == "snip" {
+				add("tls-from-imported-snippet")
+			}
+			if base == "off" && i+1 < len(vs) {
+				add("tls-off-then-more-tls")
+			}
+		}
+	}
+	return tags
 }
 
 func c15ProbeLocation(cfg *httpserver.SiteConfig) string {
@@ -548,6 +630,7 @@ func c15SitesEval(f []string) (string, []string) {
 		}
 	}
 	tags := []string{fmt.Sprintf("sites=%d", n), fmt.Sprintf("redirects=%d", len(all)-n)}
+	tags = append(tags, c15MultiTLSTags(f[0])...)
 	if nManaged > 0 {
 		tags = append(tags, "some-managed")
 	}
@@ -760,6 +843,7 @@ func c15ActivateEval(f []string) (string, []string) {
 		}
 	}
 	tags := []string{fmt.Sprintf("sites=%d", n), fmt.Sprintf("redirects=%d", len(all)-n)}
+	tags = append(tags, c15MultiTLSTags(f[0])...)
 	if nManaged > 0 {
 		tags = append(tags, "some-managed")
 	}
